@@ -38,8 +38,14 @@ func (r *Rediaron) StartEphemeral(ctx context.Context, path string, heartbeat ti
 		for {
 			select {
 			case <-tick.C:
-				if err := r.refreshEphemeral(ctx, path, heartbeat); err != nil {
+				alive, err := r.refreshEphemeral(ctx, path, heartbeat)
+				if err != nil {
 					r.revokeEphemeral(path)
+					return
+				}
+				if !alive {
+					// the key has expired: this registration lapsed, and whatever is
+					// registered under the path from now on belongs to somebody else
 					return
 				}
 			case <-ctx.Done():
@@ -63,9 +69,9 @@ func (r *Rediaron) revokeEphemeral(path string) {
 	}
 }
 
-func (r *Rediaron) refreshEphemeral(ctx context.Context, path string, ttl time.Duration) error {
+// refreshEphemeral reports whether there still was a key to refresh
+func (r *Rediaron) refreshEphemeral(ctx context.Context, path string, ttl time.Duration) (bool, error) {
 	ctx, cancel := context.WithTimeout(ctx, time.Second)
 	defer cancel()
-	_, err := r.cli.Expire(ctx, path, ttl).Result()
-	return err
+	return r.cli.Expire(ctx, path, ttl).Result()
 }
